@@ -122,7 +122,8 @@ def random_project(rng):
     listed = list(names)
     if rng.random() < 0.2:
         rng.shuffle(listed)
-    return {"default": names[0], "locales": listed, "inherits": inh, "namespaces": nss, "files": files, "roles": names}
+    p = {"default": names[0], "locales": listed, "inherits": inh, "namespaces": nss, "files": files, "roles": names}
+    return mc.decorate(rng, p) if rng.random() < 0.4 else p
 
 
 def gen_projects(ctx):
